@@ -26,17 +26,25 @@ func vTxn(first, second string, tag string) *Transaction {
 func VerifC05Deadlock(h *verifh.H) {
 	attempts := 1
 	if !h.Symbolic() {
-		attempts = 6 // Go's map iteration order is random: give the native replay several tries
+		attempts = 10 // Go's map iteration order is random: give the native replay several tries
 	}
-	op1 := h.Choice("op1", h.Param("ops", 6))
-	op2 := h.Choice("op2", h.Param("ops", 6))
+	var op1, op2 int
+	if h.Param("txnOnly", 0) == 1 {
+		// two transactions over the same two datasets, every map iteration order
+		op1, op2 = 2, 3
+	} else {
+		op1 = h.Choice("op1", h.Param("ops", 6))
+		op2 = h.Choice("op2", h.Param("ops", 6))
+	}
+	// dataset B is called "B" (sorts before core.Dataset) or "z" (sorts after it)
+	nameB := []string{"B", "z"}[h.Param("lateName", 0)]
 	for a := 0; a < attempts; a++ {
 		hub := VerifNewHub(h)
 		_, err := hub.Dsm.CreateDataset("A", nil)
 		h.Assert(err == nil, "create A")
-		_, err = hub.Dsm.CreateDataset("B", nil)
+		_, err = hub.Dsm.CreateDataset(nameB, nil)
 		h.Assert(err == nil, "create B")
-		dsA, dsB := hub.Dsm.GetDataset("A"), hub.Dsm.GetDataset("B")
+		dsA, dsB := hub.Dsm.GetDataset("A"), hub.Dsm.GetDataset(nameB)
 		run := func(op int, tag string) func() {
 			return func() {
 				switch op {
@@ -45,19 +53,22 @@ func VerifC05Deadlock(h *verifh.H) {
 				case 1:
 					_ = dsB.StoreEntities([]*Entity{NewEntity("ns0:"+tag, 0)})
 				case 2:
-					_ = hub.Store.ExecuteTransaction(vTxn("A", "B", tag))
+					_ = hub.Store.ExecuteTransaction(vTxn("A", nameB, tag))
 				case 3:
-					_ = hub.Store.ExecuteTransaction(vTxn("B", "A", tag))
+					_ = hub.Store.ExecuteTransaction(vTxn(nameB, "A", tag))
 				case 4:
 					_, _ = hub.Dsm.CreateDataset("C"+tag, nil)
 				case 5:
 					_, _ = hub.Dsm.UpdateDataset("A", &UpdateDatasetConfig{ID: "D" + tag})
 				case 6:
 					_ = hub.Store.ExecuteTransaction(vTxn("core.Dataset", "A", tag))
+				case 7:
+					_ = hub.Store.ExecuteTransaction(vTxn("core.Dataset", nameB, tag))
 				}
 			}
 		}
 		h.SymbolicSched(h.Param("preemptions", 2))
+		h.SymbolicMapOrder(h.Param("mapOrders", 0))
 		h.Go(run(op1, "x"))
 		h.Go(run(op2, "y"))
 		ok := h.Wait()
